@@ -10,6 +10,8 @@ from .core.symexpr import expr, show, strip_refs
 from . import fmtfeat
 
 RULES = {
+    "C15.6": "the recount's scan accepts every acknowledged entry (= C07.6): the comparisons of Block::read are the header-length sanity test, `entry end > file length` and the "
+             "checksum comparison only; an entry rejected at an exact boundary is dropped from the per-block tally and the topic's count is one short after a restart",
     "C15.5": "the recount's raw material counts every entry the recovery scan accepts: in startup_chore's per-unit entry scan (the loop around Block::read on the unit's stub) every "
              "path from the Ok edge of the read to the next iteration or out of the loop increments the per-block entry counter - the same condition that lets the scan accept the "
              "entry's bytes (`used += consumed`) lets it count the entry. A counter that is incremented behind the `offset >= DEFAULT_BLOCK_SIZE` exit leaves the last entry of an "
@@ -583,6 +585,8 @@ def run(ctx):
     check_decrements(ctx, facts)
     check_recount(ctx, facts)
     check_recovery_counts_every_entry(ctx, facts)
+    from .c07 import check_reader_rejections
+    check_reader_rejections(ctx, facts, rid="C15.6")
     ctx.assume("the arithmetic of the recount after restart (rebuild_topic_entry_counts_after_recovery) is NOT decided beyond C15.4's must-depend clause")
     ctx.assume("that the batch counter equals the number of entries *returned* is C01.1's obligation (known finding there), not repeated here")
     return {
